@@ -154,6 +154,18 @@ CLAIMS["C11"] = dict(
     technique="contract-based deductive verification: non-interference obligations on update(), runner loop invariant for symbolic save_every, seed contract on solve(); bounded native resume run",
     note=TRUST + " Bit identity is A1/A6 (not decided).")
 
+CLAIMS["C16"] = dict(
+    category="proof",
+    text="Structural induction on the real Parameter / CompositeParameter classes: operands are abstract parameters (real instances around leaf functions "
+         "returning uninterpreted symbolic values) satisfying the class contract Inv_P; for all 5 operators x all operand kinds (2-d, 3-d, time-dependent "
+         "with cache on/off/already used, static and time-dependent composites, int, float) on both sides the composite built through the real operator "
+         "overloads satisfies Inv_P again (attributes defined, time_dependent iff some operand is), evaluates to op(V_left, V_right) symbolically at "
+         "successive points (stale caches would show), clears the caches of the whole tree, compares structurally, survives pickling with its value, and "
+         "meets the three solver touch points. Because operands are used only through Inv_P this covers trees of any depth. Three defects repaired by a fix: commit.",
+    design_ref="DESIGN.md section 4 C16",
+    technique="contract-based deductive verification: class contract (operand contract -> composite contract) on the real classes with symbolic leaf values, VCs to z3",
+    note=TRUST + " Mixing 2-d and 3-d parameters in one expression is outside the property (z is passed to every operand). pickle/cloudpickle/numpy are the real libraries.")
+
 NA = {}
 
 checks = []
